@@ -27,6 +27,12 @@ def execute(case):
     try:
         for be in lf.BACKENDS:
             lf.set_tenalg(be)
+            if c["skip"] != -1 or c["tr"] or c["modes"]:       # Tucker view options
+                for how in ("tuple", "object"):
+                    if how == "object" and (c["tr"] or c["modes"]):
+                        continue                                 # (core, factors) is not a TuckerTensor under these options
+                    runs["%s_%s" % (be, how)] = lf.run_tucker_options(inp, how, c["skip"], c["tr"], c["modes"])
+                continue
             for how in ("tuple", "object"):
                 runs["%s_%s" % (be, how)] = lf.run_views(op, inp, how)
             if c["bad"] != "none":          # invalid family: the conversion functions on the raw tuple, too
